@@ -74,7 +74,15 @@ SET(R13, 7)
 RETURN(FP_alt, PC_ret)
 """
 
-FIXED = [RECURSION, NESTED, WARNS]
+SAME_LINE = """
+SET(R1, 5) SET(R2, 5)
+CMP(R1, R2) BZ(equal) SET(R3, 111)
+LABEL(equal) SET(R4, 222) CALL(FP_alt, f) INC(R4, 1)
+HALT() SET(R6, 1)
+LABEL(f) INC(R5, 1) RETURN(FP_alt, PC_ret) INC(R5, 7)
+"""
+
+FIXED = [RECURSION, NESTED, WARNS, SAME_LINE]
 
 
 def gen_program(rng, seed):
@@ -89,6 +97,22 @@ def gen_program(rng, seed):
         out.append(l)
         if l and not l.startswith(("LABEL", "DLABEL", "CONSTANT", "HALT", "RETURN")) and rng.random() < 0.15:
             out.append(l)
+    if rng.random() < 0.35:
+        # a label that names the very first instruction (after the data statements) and one at the very end
+        i = 0
+        while i < len(out) and out[i].split("(")[0].strip() in ("CONSTANT", "DLABEL", "INTEGER", "LP_STRING", "DSKIP", ""):
+            i += 1
+        out.insert(i, "LABEL(top0)")
+        out.append("LABEL(bottom0)")
+    if rng.random() < 0.3:
+        # several operations on one source line
+        joined = []
+        for l in out:
+            if joined and l and joined[-1] and rng.random() < 0.45:
+                joined[-1] = joined[-1] + " " + l
+            else:
+                joined.append(l)
+        out = joined
     return "\n".join(out)
 
 
@@ -663,6 +687,8 @@ def to_model_cmd(shell, c):
             b = shell.debugger.location_to_instruction_number(parts[1])
         except ValueError:
             return noop
+        if k == "break" and not 0 <= int(b) < len(shell.debugger.program.code):
+            return noop      # "there is no instruction at that location"
         return ["{} {}".format("b" if k == "break" else "g", int(b))]
     if k == "clear":
         if len(parts) == 1:
